@@ -9,6 +9,8 @@
 (*                                                                         *)
 (* A scenario description `sc` (the "j" field of the Scenario event) gives *)
 (* for every connection the messages of its byte stream:                   *)
+(*   (per connection: noread = the client never reads, so no frame can be  *)
+(*   observed on it)                                                       *)
 (*   hs, he, be : offsets of start, end of head, end of designated body    *)
 (*   cls  : "ok" | "r400" | "r417" | "r505" | "close"   (reference         *)
 (*          classification, fn/HeadSyntax)                                 *)
@@ -252,7 +254,7 @@ CJunk(s, sc, e) ==
 \* "nothing is owed": rb = some receiver is blocked in (or about to make) a receive call
 Quiescent(s, sc, e, rb) ==
     LET ph == e.ph
-        conns == {c \in 0..(NC(sc) - 1) : s.fault[c + 1] \in {"none", "half"}}
+        conns == {c \in 0..(NC(sc) - 1) : s.fault[c + 1] \in {"none", "half"} /\ ~sc.conns[c + 1].noread}
         stallp(c, m) ==
             IF Fam(sc) \in {"C07", "C08", "C11", "C18", "C09", "C10", "C16", "C12", "C15", "C13", "C20"} THEN Fam(sc) ELSE "C11"
         undeliv(c) == {m \in 0..(NM(sc, c) - 1) : Deliverable(s, sc, c, m) /\ m \notin s.deliv[c + 1]}
